@@ -68,6 +68,12 @@ CHECKS.update({
          "bash 5.2.15 reference; diagnostics are not compared, and a file that received a diagnostic (because stderr was redirected into it) is not compared; byte offsets are not compared; N>&N on a closed N and `<<-` bodies with backslash-continued lines are kept out", "DESIGN.md §3 C10"),
 })
 
+CHECKS.update({
+ "C16": ("grammar-based property testing over termination paths x contexts x trap histories x handler kinds x front-ends; differential oracle vs bash 5.2.15 plus an exactly-once/last-line/status invariant on brush's own output",
+         "3k (quick) / 60k (thorough) generated programs from the control-flow grammar with EXIT-trap manipulations and terminating leaves at arbitrary positions, delivered as file, -c and stdin; stdout and status compared with bash, and the plain handler's marker line checked to appear at most once, last, with the process status. 1.5k/30k ERR-handler programs probing $? after every command. Exploration.",
+         "bash 5.2.15 reference; status after an expansion error compared zero/non-zero (5.2 uses 127); EXIT traps manipulated inside subshells are outside the statement; a syntax error inside eval ends a non-interactive brush (POSIX behaviour) while bash continues - that leaf is not generated", "DESIGN.md §3 C16"),
+})
+
 NOT_YET = {}
 
 def hooks():
